@@ -179,11 +179,12 @@ def best_match(available_alternatives, distribution_version):
                 return f"{versions.major}.{latest_minor}"
         # not found in the available alternatives, it could still be a master version
         major, _, _, _ = components(distribution_version)
-        if major > _latest_major(available_alternatives):
+        if major > _latest_major(available_alternatives) and "master" in available_alternatives:
             return "master"
-    elif is_serverless(distribution_version):
+    # `master` is only a match if it is actually available (otherwise the caller can still try other options, e.g. tags)
+    elif is_serverless(distribution_version) and "master" in available_alternatives:
         return "master"
-    elif not distribution_version:
+    elif not distribution_version and "master" in available_alternatives:
         return "master"
     return None
 
